@@ -52,8 +52,9 @@ def write_evidence(prop, mod, tier, seed, merged, wall, violations, extra):
     }
     if extra.get("inconclusive"):
         ev["coverage"]["inconclusive"] = extra["inconclusive"]
-    os.makedirs(os.path.join(ROOT, "evidence"), exist_ok=True)
-    with open(os.path.join(ROOT, "evidence", f"{prop}.json"), "w") as f:
+    evdir = os.environ.get("VERIF_EVIDENCE_DIR") or os.path.join(ROOT, "evidence")
+    os.makedirs(evdir, exist_ok=True)
+    with open(os.path.join(evdir, f"{prop}.json"), "w") as f:
         json.dump(ev, f, indent=1, ensure_ascii=True)
         f.write("\n")
 
